@@ -133,7 +133,7 @@ func ruleC05DriveOwnership(c *Ctx) {
 			}
 		})
 	}
-	if k < 4 {
+	if k < half(4) {
 		c.unresolved("only %d uses of the writer handle found (expected one per write operation)", k)
 	}
 	// the reader handle's static interface has no mutating method
@@ -236,7 +236,7 @@ func ruleC05LookupsBeforeAppend(c *Ctx) {
 			}
 			c.verdictIf(s&wrote == 0, rule, f, fmt.Sprintf("index lookup#%d %s", k, fn.Name()), cs.Call.Pos(), "lookup happens before the first record is written", "an index lookup ("+fn.Name()+") can run after records were already appended: its failure would leave a half-written batch")
 		}
-		if k < 3 {
+		if k < half(3) {
 			c.unresolved("only %d index lookups in %s", k, name)
 		}
 	}
